@@ -335,15 +335,32 @@ fn bare_payloads(m: &mut Model, rng: &mut Rng) -> String {
     for (k, t) in m.terms.iter_mut().enumerate() {
         // user types whose names contain keywords / the emitter's vocabulary as substrings
         let name = format!("{}{k}", rng.pick_str(&["P", "P", "SelfP", "ItSelf", "NodeP", "TokP", "BoxedP", "StateP", "selfish_p", "EofP"]));
-        match rng.below(5) {
+        // "no trait at all" includes the AUTO traits: some payload types are !Send, !Sync, !Unpin, not
+        // UnwindSafe, not 'static-friendly (raw pointer, Rc, Cell, PhantomPinned, a boxed closure)
+        let body = rng.pick_str(&[
+            ";",
+            ";",
+            "(*const u8);",
+            "(std::rc::Rc<u8>);",
+            "(std::cell::Cell<u8>, std::marker::PhantomPinned);",
+            "(Box<dyn Fn()>);",
+            "(std::cell::UnsafeCell<u8>, *mut ());",
+            "(std::sync::MutexGuard<'static, u8>);",
+        ]);
+        match rng.below(6) {
             0 => t.ty = TypeExpr::Unit,
             1 => {
                 t.ty = TypeExpr::Generic(vec!["Vec".into()], vec![TypeExpr::path(&format!("crate::{name}"))]);
-                defs.push_str(&format!("pub struct {name};\n"));
+                defs.push_str(&format!("pub struct {name}{body}\n"));
+            }
+            2 => {
+                // a std type that is not Send directly as the payload
+                t.ty = TypeExpr::Generic(vec!["std".into(), "rc".into(), "Rc".into()], vec![TypeExpr::path(&format!("crate::{name}"))]);
+                defs.push_str(&format!("pub struct {name}{body}\n"));
             }
             _ => {
                 t.ty = TypeExpr::path(&format!("crate::{name}"));
-                defs.push_str(&format!("pub struct {name};\n"));
+                defs.push_str(&format!("pub struct {name}{body}\n"));
             }
         }
     }
